@@ -315,6 +315,10 @@ pub struct Bpe {
     /// vocabulary.
     byte_to_char: [char; 256],
 
+    /// Map from byte values to the ID of the token "{byte}{end_of_word_suffix}",
+    /// if an end-of-word suffix is used.
+    eow_byte_to_token_id: Option<Box<[TokenId; 256]>>,
+
     token_id_to_encoded_bytes: FxHashMap<TokenId, EncodedBytes>,
 
     vocab: Option<FxHashMap<EncodedBytes, TokenId>>,
@@ -364,6 +368,25 @@ impl Bpe {
             }
         }
 
+        // Build byte -> token ID mapping for the last byte of a piece when an
+        // end-of-word suffix is used. Vocabularies generated by `build_vocab`
+        // (and eg. CLIP's) assign "{byte}{suffix}" the ID of "{byte}" plus 256.
+        // This is used as a fallback if the vocabulary has no such entry.
+        let eow_byte_to_token_id = end_of_word_suffix.as_deref().map(|suffix| {
+            let mut ids = Box::new([0; 256]);
+            let mut token = String::new();
+            for (i, ch) in byte_to_char().into_iter().enumerate() {
+                token.clear();
+                token.push(ch);
+                token.push_str(suffix);
+                ids[i] = vocab
+                    .get(&token)
+                    .copied()
+                    .unwrap_or(byte_to_token_id[i].wrapping_add(256));
+            }
+            ids
+        });
+
         // If the `ignore_merges` flag is set for this tokenizer, we'll need
         // to use the vocabulary during encoding.
         //
@@ -386,6 +409,7 @@ impl Bpe {
             byte_to_char: byte_to_char(),
             byte_to_token_id,
             end_of_word_suffix,
+            eow_byte_to_token_id,
             ignore_merges,
             merges,
             token_id_to_encoded_bytes,
@@ -422,11 +446,12 @@ impl Bpe {
 
         // If the end-of-word suffix is enabled, replace the last byte's token
         // with the one that corresponds to "{byte}{end_of_word_suffix}".
-        if self.end_of_word_suffix.is_some()
+        if let Some(eow_ids) = self.eow_byte_to_token_id.as_deref()
             && end_of_word
-            && let Some(last) = tokens.pop()
+            && let Some(&last_byte) = piece.as_bytes().last()
+            && let Some(last) = tokens.last_mut()
         {
-            tokens.push(last + 256);
+            *last = eow_ids[last_byte.as_usize()];
         }
 
         // Iteratively merge tokens together until no more are possible.
